@@ -398,9 +398,12 @@ class BulkObservables:
 
         Returns
         -------
-        particle_counter / num_events: float
-            The average pT of particles per event that fall within the
-            specified rapidity range.
+        float
+            The mean pT of the particles of an event that fall within the
+            specified rapidity range, averaged over the events which have at
+            least one particle in this range (events without such a particle
+            have no mean and are skipped). If there is no such event, 0 is
+            returned.
 
         """
         if not isinstance(y_width, (int, float)):
@@ -413,25 +416,31 @@ class BulkObservables:
         if num_events == 0:
             return 0
 
-        pT_sum = 0.0
-        particle_counter = 0
-
         particle_method = getattr(self.particle_objects[0][0], quantity)
         if not callable(particle_method):
             raise AttributeError(
                 f"'{quantity}' is not a callable method of Particle"
             )
 
-        # Fill histograms
+        # Per-event mean over the particles inside the window, averaged over
+        # the events which have at least one particle inside the window
+        mean_sum = 0.0
+        events_with_particles = 0
         for event in self.particle_objects:
+            pT_sum = 0.0
+            particle_counter = 0
             for particle in event:
-                particle_counter += 1
                 if -y_width / 2 <= getattr(particle, quantity)() <= y_width / 2:
                     pT_sum += particle.pT_abs()
-            pT_sum /= particle_counter
-            particle_counter = 0
+                    particle_counter += 1
+            if particle_counter > 0:
+                mean_sum += pT_sum / particle_counter
+                events_with_particles += 1
 
-        return pT_sum / num_events
+        if events_with_particles == 0:
+            return 0
+
+        return mean_sum / events_with_particles
 
     def mid_rapidity_mean_mT(
         self, y_width: float = 1.0, quantity: str = "rapidity"
@@ -452,9 +461,12 @@ class BulkObservables:
 
         Returns
         -------
-        particle_counter / num_events: float
-            The average mT of particles per event that fall within the
-            specified rapidity range.
+        float
+            The mean mT of the particles of an event that fall within the
+            specified rapidity range, averaged over the events which have at
+            least one particle in this range (events without such a particle
+            have no mean and are skipped). If there is no such event, 0 is
+            returned.
 
         """
         if not isinstance(y_width, (int, float)):
@@ -467,22 +479,28 @@ class BulkObservables:
         if num_events == 0:
             return 0
 
-        pT_sum = 0.0
-        particle_counter = 0
-
         particle_method = getattr(self.particle_objects[0][0], quantity)
         if not callable(particle_method):
             raise AttributeError(
                 f"'{quantity}' is not a callable method of Particle"
             )
 
-        # Fill histograms
+        # Per-event mean over the particles inside the window, averaged over
+        # the events which have at least one particle inside the window
+        mean_sum = 0.0
+        events_with_particles = 0
         for event in self.particle_objects:
+            pT_sum = 0.0
+            particle_counter = 0
             for particle in event:
-                particle_counter += 1
                 if -y_width / 2 <= getattr(particle, quantity)() <= y_width / 2:
                     pT_sum += particle.mT()
-            pT_sum /= particle_counter
-            particle_counter = 0
+                    particle_counter += 1
+            if particle_counter > 0:
+                mean_sum += pT_sum / particle_counter
+                events_with_particles += 1
 
-        return pT_sum / num_events
+        if events_with_particles == 0:
+            return 0
+
+        return mean_sum / events_with_particles
